@@ -55,6 +55,8 @@ def make_family():
     m["small2"] = {"excludes": "small1"}
     m["shy"] = {"inclusive": False, "group": "g1"}
     m["solo"] = {"excludes": "_"}
+    m["left"] = {"excludes": "left right"}       # mutual exclusion between two distinct types
+    m["right"] = {"excludes": "left right", "attrs": {"n": {"default": 0}}}
     out.append(SchemaInfo(Schema({"nodes": n, "marks": m}), "marks-x"))
     return out
 
